@@ -20,6 +20,8 @@ GNext ==
   \/ /\ More /\ \E o \in Pick(Objs), i \in Pick(Slots), j \in Pick(Slots) : NewFp(o, i, j) /\ Log([op |-> "fp", o |-> o, i |-> i, j |-> j])
   \/ /\ More /\ \E o \in Pick(Objs), i \in Pick(Slots) : slot[<<o, i>>] # 0 /\ CallOut(o, i) /\ Log([op |-> "callout", o |-> o, i |-> i])
   \/ /\ More /\ \E o \in Pick(Objs), k \in Pick({1, 2}), by \in Pick({"name", "handle"}) : RmCallOut(o, k) /\ Log([op |-> "rmco", o |-> o, by |-> by])
+  \/ /\ More /\ \E o \in Pick(Objs), i \in Pick(Slots) : slot[<<o, i>>] # 0 /\ Many(o, i) /\ Log([op |-> "many", o |-> o, i |-> i])
+  \/ /\ More /\ \E o \in Pick(Objs) : Unmany(o) /\ Log([op |-> "unmany", o |-> o])
   \/ /\ More /\ \E o \in Pick(Objs), i \in Pick(Slots), f \in Pick({"name", "fp"}) : InputTo(o, i) /\ Log([op |-> "inp", o |-> o, i |-> i, form |-> f])
   \/ /\ More /\ \E r \in Pick({"ok", "err"}) : InputLine /\ Log([op |-> "line", o |-> inp[1], res |-> r])
   \/ /\ More /\ inp # <<>> /\ Drop /\ Log([op |-> "drop", o |-> inp[1]])
@@ -28,6 +30,6 @@ GNext ==
   \/ /\ ~More /\ UNCHANGED gvars
 GInit == Init /\ hist = <<>>
 GSpec == GInit /\ [][GNext]_gvars
-Interesting == \E k \in 1..Len(hist) : hist[k].op \in {"copy", "put", "putr", "fp", "callout", "inp"}
+Interesting == \E k \in 1..Len(hist) : hist[k].op \in {"copy", "put", "putr", "fp", "callout", "inp", "many"}
 Emit == (Len(hist) = MaxLen /\ Interesting) => PrintT(<<"@@B", ToJson(hist)>>)
 =============================================================================
